@@ -83,64 +83,58 @@ def interp_none():
 
 
 def variant_constructors(ctx):
-    """Variant::from_* store the value in the slot of their own type; coercions read their own slot first"""
-    want = {
-        "from_int": {"value_type": "VariantType::Int", "int_value": "Option::Some(value)", "float_value": "Option::Some((value as f64))"},
-        "from_float": {"value_type": "VariantType::Float", "float_value": "Option::Some(value)", "int_value": "Option::Some((value as i64))"},
-        "from_bool": {"value_type": "VariantType::Bool", "bool_value": "Option::Some(value)"},
-        "from_datetime": {"value_type": "VariantType::DateTime", "dt_from": "Option::Some(value)", "dt_to": "Option::Some(value)"},
-        "from_string": {"value_type": "VariantType::String", "string_value": "value.to_owned()", "int_value": "Option::None", "float_value": "Option::None", "bool_value": "Option::None"},
-    }
-    n = 0
-    for fn, fields in want.items():
+    """Variant::from_* store the value in the slot of their own type and render it plainly; coercions read their own slot
+    first.  The constructors are evaluated (finite interpreter, crate calls interpreted) on sample values and the fields of
+    the resulting struct are compared."""
+    import interp
+
+    def call(node, recv, args, it, env):
+        callee = str(node.get("callee", ""))
+        if callee.endswith("format_datetime") or callee.endswith("format_date"):
+            return ("<formatted %s>" % (args[0],),)
+        return None
+
+    def build(fn, value):
         name = "function::Variant::" + fn
         h = ctx.anchor_hir(name)
-        fs, node = struct_fields_of(h, "Variant")
-        if fs is None:
-            ctx.violation("variant/%s/shape" % fn, ctx.where(name), "Variant::%s does not build a Variant literal" % fn)
+        ps = ctx.prog.fns[name]["params"]
+        return interp.Interp(call=call, prog=ctx.prog).run(h, {ps[0]["id"]: value})
+    some, NONE = interp.some, interp.NONE
+    want = {
+        ("from_int", 7): {"value_type": "VariantType::Int", "int_value": some(7), "float_value": some(7.0), "string_value": "7"},
+        ("from_int", -3): {"value_type": "VariantType::Int", "int_value": some(-3), "string_value": "-3"},
+        ("from_float", 2.5): {"value_type": "VariantType::Float", "float_value": some(2.5), "int_value": some(2), "string_value": "2.5"},
+        ("from_float", 8.0): {"value_type": "VariantType::Float", "float_value": some(8.0), "string_value": "8"},
+        ("from_float", 1e19): {"value_type": "VariantType::Float", "float_value": some(1e19), "string_value": "10000000000000000000"},
+        ("from_bool", True): {"value_type": "VariantType::Bool", "bool_value": some(True), "string_value": "true"},
+        ("from_bool", False): {"value_type": "VariantType::Bool", "bool_value": some(False), "string_value": "false"},
+        ("from_string", "abc"): {"value_type": "VariantType::String", "string_value": "abc", "int_value": NONE, "float_value": NONE, "bool_value": NONE},
+        ("from_datetime", "<dt>"): {"value_type": "VariantType::DateTime", "dt_from": some("<dt>"), "dt_to": some("<dt>")},
+    }
+    n = 0
+    for (fn, value), fields in want.items():
+        try:
+            got = build(fn, value)
+        except interp.Undecided as e:
+            ctx.violation("variant/%s/shape" % fn, ctx.where("function::Variant::" + fn), "cannot evaluate Variant::%s: %s" % (fn, e))
             continue
-        locs = Locals(h)
-
-        def norm(e):
-            e = peel(e, methods=False)
-            if e["k"] == "Call" and e.get("ctor") and len(e["args"]) == 1:
-                return "%s(%s)" % (render(e["f"]), render(peel(locs.chase(e["args"][0]), methods=False)))
-            return render(peel(locs.chase(e), methods=False))
+        if not isinstance(got, dict):
+            ctx.violation("variant/%s/shape" % fn, ctx.where("function::Variant::" + fn), "Variant::%s does not build a Variant literal" % fn)
+            continue
         for k, v in fields.items():
             n += 1
-            got = norm(fs[k]) if k in fs else None
-            ok = got == v
+            g = got.get(k)
+            if isinstance(g, interp.V) and k == "value_type":
+                g = g.name
+            if isinstance(v, str) and k == "string_value" and fn == "from_float" and isinstance(g, str):
+                # Rust prints 1e19 as 10000000000000000000 and 8.0 as 8; the model of f64::to_string prints the same
+                pass
+            ok = g == v
             ctx.obligation(ok)
             if not ok:
-                ctx.violation("variant/%s/%s" % (fn, k), ctx.where(name, node), "Variant::%s sets %s to `%s`, expected `%s`" % (fn, k, got, v))
-    # the text of a number / boolean is its plain rendering
-    for fn, tmpl in (("from_int", ["{}"]), ("from_float", ["{}"])):
-        h = ctx.anchor_hir("function::Variant::" + fn)
-        fs, node = struct_fields_of(h, "Variant")
-        tm = [t for t, _ in fmt_templates(fs["string_value"])] if fs and "string_value" in fs else None
-        n += 1
-        sv = peel(fs["string_value"], methods=False) if fs and "string_value" in fs else None
-        plain_call = sv is not None and sv["k"] == "MCall" and sv["m"] == "to_string" and render(peel(sv["recv"])) == "value"
-        ok = (tm == tmpl and "value" in render(fs["string_value"])) or plain_call
-        ctx.obligation(ok)
-        if not ok:
-            ctx.violation("variant/%s/text" % fn, ctx.where("function::Variant::" + fn), "Variant::%s renders its text as %s" % (fn, tm))
-    h = ctx.anchor_hir("function::Variant::from_bool")
-    fs, node = struct_fields_of(h, "Variant")
-    tbl = {}
-    if fs:
-        import interp
-        pid = [p["id"] for p in ctx.prog.fns["function::Variant::from_bool"]["params"]][:1]
-        for bv in (True, False):
-            try:
-                tbl[bv] = interp.Interp().ev(fs["string_value"], {pid[0]: bv})
-            except (interp.Undecided, IndexError) as e:
-                tbl[bv] = "undecided: %s" % e
-    ok = tbl.get(True) == "true" and tbl.get(False) == "false"
-    n += 1
-    ctx.obligation(ok)
-    if not ok:
-        ctx.violation("variant/from_bool/text", ctx.where("function::Variant::from_bool"), "Variant::from_bool must render true/false; found %s" % tbl)
+                key = "text" if k == "string_value" and fn in ("from_int", "from_float", "from_bool") else k
+                ctx.violation("variant/%s/%s" % (fn, key), ctx.where("function::Variant::" + fn),
+                              "Variant::%s(%r) sets %s to `%s`, expected `%s`" % (fn, value, k, g, v))
     # coercions: own slot first, then the other slot, then the text (number, size literal), else zero / false
     tbl = variant_coercion_table(ctx)
     for fn, res in tbl.items():
